@@ -68,6 +68,28 @@ def gen_case(rng, tier, fixed=None):
     env = gen_env(rng)
     labels = list(env)
     r = rng.random() if fixed is None else 2.0
+    if r < 0.1:
+        # whitespace twins in ONE program: a well-formed text, then the same characters with one blank more (inside a
+        # number, an operator, a name, a character literal ...) or all blanks removed. Every text has its own meaning;
+        # nothing an earlier statement did (a parse cache, an interned tree) may leak into a later one.
+        s_, k = gen_valid_text(rng, env, min(depth, 3), labels)
+        s_ = s_.strip()
+        pos = [i for i in range(1, len(s_)) if not s_[i - 1].isspace() and not s_[i].isspace()]
+        twins = [s_]
+        for _ in range(rng.randint(1, 2)):
+            if pos and rng.random() < 0.8:
+                i = rng.choice(pos)
+                twins.append(s_[:i] + rng.choice([' ', ' ', '\t']) + s_[i:])
+            else:
+                twins.append(''.join(s_.split()))
+        if rng.random() < 0.3:
+            twins = ["' '", "'\t'"] if rng.random() < 0.5 else ["'\t'", "' '"]
+        if rng.random() < 0.3:
+            twins.reverse()
+        # a quoted text in a data directive is a string (one value per character), not an expression: quoted twins go
+        # through the operand channel only
+        return {'kind': 'ws-twin', 'env': env, 'exprs': twins, 'end': False, 'nops': max(k, 2), 'endian': 'big',
+                'via_operand': rng.random() < 0.5 or any("'" in t or '"' in t for t in twins)}
     if r < 0.5:
         n = 6
         exprs = []
@@ -128,7 +150,7 @@ def generate(rng, tier):
             continue
         # error / malformed / corner texts are observed through both channels: a 512-bit numeric operand and a .8byte line
         # (a blank text is "no value" for a data line, and ''' is an empty string followed by a quote there)
-        if c['kind'] != 'valid' and rng.random() < 0.5 and c['exprs'][0].strip() and "'''" not in c['exprs'][0]:
+        if c['kind'] not in ('valid', 'ws-twin') and rng.random() < 0.5 and c['exprs'][0].strip() and "'''" not in c['exprs'][0]:
             c['via_operand'] = False
     return cases
 
